@@ -10,7 +10,7 @@
    fields of [f] / [b] and universally quantified. *)
 From Coq Require Import List NArith Bool.
 From Herc Require Import TreeDiff.Model TreeDiff.ChangesProofs TreeDiff.FilterProofs TreeDiff.CacheProofs
-  TreeDiff.ReplayProofs.
+  TreeDiff.ReplayProofs TreeDiff.FixedFilter.
 Import ListNotations.
 Open Scope N_scope.
 
@@ -85,6 +85,18 @@ Theorem C20_language_flip_refuted_spurious :
       apply_all cs (fs_of (restrict f prev)) = None.
 Proof. exact language_flip_refuted_spurious. Qed.
 Print Assumptions C20_language_flip_refuted_spurious.
+
+(* the candidate repair (judge the language of both sides of a modification; a disagreement becomes a
+   deletion or an insertion - [filter_diffs_fixed], coq/theories/TreeDiff/FixedFilter.v) satisfies the
+   full statement: no hypothesis on the language detection is left.  This is a statement about the
+   proposed patch, not about the code in /repo. *)
+Theorem C20_candidate_fix_sound : forall f prev cur dt,
+  tree_wfb prev = true -> tree_wfb cur = true -> f_vendor f [] = false ->
+  changes_ok all_pass prev cur dt = true ->
+  exists m, apply_all (filter_diffs_fixed f dt) (fs_of (restrict f prev)) = Some m /\
+            forall p, m p = fs_of (restrict f cur) p.
+Proof. exact fixed_step_apply. Qed.
+Print Assumptions C20_candidate_fix_sound.
 
 (* ---- the first commit of a branch reports every passing file as an addition ---- *)
 
